@@ -14,6 +14,7 @@ type vpTxnState struct {
 }
 
 func VpHOracle() {
+	vpConfig("defer-asserts", 1)
 	o := newOracle(Options{DetectConflicts: true})
 	ts0 := vpU64("ts0")
 	vpAssume(ts0 < 1<<40)
